@@ -1,6 +1,199 @@
-From Coq Require Import ZArith List Arith.
-From Knee Require Import Num NpList Model.Zmethod Proofs.ZmethodFacts.
+(* Props/C10.v — property C10: Z-method knees are valid, height-ordered and mutually separated.
+   Only statements, each closed by `exact`, with its assumptions printed.
+
+   Model: Model/Zmethod.v (zmethod.getPoints / map_index / knees).  The z-score column of the rows is an oracle
+   (any values).  `ord` is the order in which the candidate outliers of a round are processed (np.argsort, unstable
+   on ties): every theorem holds for EVERY `ord` that returns a permutation of its argument. *)
+From Coq Require Import Reals ZArith List Arith Bool Permutation Sorted PrimFloat.
+From Knee Require Import Num NumFloat NumR NpList OrdLaws Model.Zmethod
+  Proofs.ZmethodCand Proofs.ZmethodFacts Proofs.ZmethodOutput Proofs.ZmethodFloat Proofs.ZmethodR Proofs.ZmethodSet.
 Import ListNotations.
-Theorem C10_search_lt : forall (N : Num) (xs : list (T N)) i v k, search xs i v = Some k -> i <= k < i + length xs.
-Proof. exact @search_lt. Qed.
-Print Assumptions C10_search_lt.
+
+(* z_inv (Tier S).  When the main loop stops with remaining rows `pts` and selected outliers `outs`:
+   every remaining row is outside the x-band AND the y-band of every outlier (the code's own np.where mask);
+   for two outliers o1 (earlier) and o2 (later): o2 passed the explicit test |y2 - y1| >= h, and in x either o2 passed
+   o1's band filter or both come from one round's groups that the code found separated by a gap >= w;
+   outliers are points of the curve; the remaining rows are a sub-array of the input. *)
+Theorem C10_z_inv : forall (N : Num) (w h dz minz : T N) (rows : list row) (ord : nat -> list row -> list row),
+  (forall j l, Permutation (ord j l) l) ->
+  forall fuel thr pts outs k,
+  loop w h dz minz ord fuel 0 thr rows [] = RDone (pts, outs) k ->
+  (forall r o, In r pts -> In o outs -> keep w h o (xy r) = true)
+  /\ ForallOrdPairs (fun o1 o2 : pt => YS h o1 o2 /\ XS w rows o1 o2) outs
+  /\ (forall o, In o outs -> In o (map xy rows))
+  /\ (exists f, pts = filter f rows).
+Proof. exact @z_inv_loop. Qed.
+Print Assumptions C10_z_inv.
+
+(* ... the same for any two indices that zmethod.knees returns (integer abscissae represented exactly) *)
+Theorem C10_z_inv_knees : forall (N : Num) (ord : nat -> list row -> list row),
+  (forall j l, Permutation (ord j l) l) ->
+  forall ks, StronglySorted Z.lt ks ->
+  (forall k, In k ks -> @truncZ N (ofZ k) = Some k) ->
+  (forall a b, In a ks -> In b ks -> @ltb N (ofZ a) (ofZ b) = (a <? b)%Z) ->
+  forall rows : list row, map rx rows = map (@ofZ N) ks ->
+  forall fuel dx dy dz xmax yr ix k p,
+  params rows dx dy xmax yr = Some (Some p) ->
+  knees ord fuel rows dx dy dz xmax yr = RDone ix k ->
+  let o := fun i => (yat (map rx rows) i, yat (map ry rows) i) in
+  ForallOrdPairs (fun a b =>
+      (YS (zp_h p) (o a) (o b) /\ XS (zp_w p) rows (o a) (o b)) \/
+      (YS (zp_h p) (o b) (o a) /\ XS (zp_w p) rows (o b) (o a))) ix
+  /\ Forall (fun i => i < length rows) ix.
+Proof. exact @z_output_pairs. Qed.
+Print Assumptions C10_z_inv_knees.
+
+(* z_separated (Tier A, reals): hence any two selected outliers are >= w apart in x and >= h apart in y *)
+Theorem C10_z_separated_outliers : forall (w h : R) (rows : list (@row RNum)),
+  StronglySorted Rlt (map (@rx RNum) rows) ->
+  forall dz minz ord fuel thr pts outs k,
+  (forall j l, Permutation (ord j l) l) ->
+  @loop RNum w h dz minz ord fuel 0 thr rows [] = RDone (pts, outs) k ->
+  ForallOrdPairs (fun o1 o2 : R * R => (w <= Rabs (fst o1 - fst o2))%R /\ (h <= Rabs (snd o1 - snd o2))%R) outs.
+Proof. exact z_separated_loop. Qed.
+Print Assumptions C10_z_separated_outliers.
+
+(* z_separated for the value of zmethod.knees, with the predicate the run evaluates on the implementation's output:
+   w = max(1, floor(x_max dx)) and h = (y_max - y_min) dy are the parameters `params` computes *)
+Theorem C10_z_separated : forall ord : nat -> list (@row RNum) -> list (@row RNum),
+  (forall j l, Permutation (ord j l) l) ->
+  forall ks, StronglySorted Z.lt ks ->
+  forall rows : list (@row RNum), map (@rx RNum) rows = map IZR ks ->
+  forall fuel dx dy dz xmax yr ix k p,
+  @params RNum rows dx dy xmax yr = Some (Some p) ->
+  @knees RNum ord fuel rows dx dy dz xmax yr = RDone ix k ->
+  @xsep_ok RNum (zp_w p) (map (@rx RNum) rows) ix = true /\ @ysep_ok RNum (zp_h p) (map (@ry RNum) rows) ix = true.
+Proof. exact z_separated. Qed.
+Print Assumptions C10_z_separated.
+
+(* the y-separation already holds in every arithmetic (Tier S): it is the code's own float test *)
+Theorem C10_z_ysep : forall (N : Num) (ord : nat -> list row -> list row),
+  (forall j l, Permutation (ord j l) l) ->
+  forall ks, StronglySorted Z.lt ks ->
+  (forall k, In k ks -> @truncZ N (ofZ k) = Some k) ->
+  (forall a b, In a ks -> In b ks -> @ltb N (ofZ a) (ofZ b) = (a <? b)%Z) ->
+  forall rows : list row, map rx rows = map (@ofZ N) ks ->
+  forall fuel dx dy dz xmax yr ix k p,
+  params rows dx dy xmax yr = Some (Some p) ->
+  knees ord fuel rows dx dy dz xmax yr = RDone ix k ->
+  ysep_ok (zp_h p) (map ry rows) ix = true.
+Proof. exact @z_output_ysep. Qed.
+Print Assumptions C10_z_ysep.
+
+(* z_total (Tier S): under the two boolean preconditions the run evaluates — (i) the threshold schedule 3, 3-dz, ... is
+   <= min z from step K to step K + n + 2, (ii) no row survives its own band filter — zmethod.knees stops within
+   K + n + 2 rounds (fuel K + n + 2 is never exhausted), for every processing order *)
+Theorem C10_z_total : forall (N : Num) (ord : nat -> list (@row N) -> list (@row N)) (rows : list (@row N)) (dx dy dz : T N) xmax yr p K,
+  (forall j l, Permutation (ord j l) l) ->
+  params rows dx dy xmax yr = Some (Some p) ->
+  sched_ok dz (zp_minz p) K (length rows + 2) = true -> self_removed (zp_w p) (zp_h p) rows = true ->
+  match knees ord (K + length rows + 2) rows dx dy dz xmax yr with
+  | RFuel => False
+  | RErr => True
+  | RDone _ k => k <= K + length rows + 2
+  end.
+Proof. exact @z_total. Qed.
+Print Assumptions C10_z_total.
+
+(* z_total_R (Tier A): on the reals both preconditions hold with K = ceil((3 - min z)/dz) whenever dz > 0 and w > 0 *)
+Theorem C10_z_total_R_pre : forall (w h dz minz : R) (rows : list (@row RNum)) m,
+  (0 < dz)%R -> (0 < w)%R ->
+  @sched_ok RNum dz minz (K_R dz minz) m = true /\ @self_removed RNum w h rows = true.
+Proof. exact z_total_pre_R. Qed.
+Print Assumptions C10_z_total_R_pre.
+
+Theorem C10_z_total_R : forall ord (rows : list (@row RNum)) (dx dy dz : R) xmax yr p,
+  (forall j l, Permutation (ord j l) l) ->
+  @params RNum rows dx dy xmax yr = Some (Some p) -> (0 < dz)%R -> (0 < zp_w p)%R ->
+  let B := (K_R dz (zp_minz p) + length rows + 2)%nat in
+  match @knees RNum ord B rows dx dy dz xmax yr with
+  | RFuel => False
+  | RErr => True
+  | RDone _ k => k <= B
+  end.
+Proof. exact z_total_knees_R. Qed.
+Print Assumptions C10_z_total_R.
+
+(* ... and w >= 1 by construction *)
+Theorem C10_width_pos : forall (rows : list (@row RNum)) dx dy xmax yr p,
+  @params RNum rows dx dy xmax yr = Some (Some p) -> (1 <= zp_w p)%R.
+Proof. exact params_w_pos. Qed.
+Print Assumptions C10_width_pos.
+
+(* z_output (Tier S): the indices are valid and strictly increasing; each returned height passed the sweep's test
+   `not (y > running minimum)` against its left neighbour, the first one against 1.0 *)
+Theorem C10_z_output_S : forall (N : Num) (ord : nat -> list row -> list row),
+  (forall j l, Permutation (ord j l) l) ->
+  forall ks, StronglySorted Z.lt ks ->
+  (forall k, In k ks -> @truncZ N (ofZ k) = Some k) ->
+  (forall a b, In a ks -> In b ks -> @ltb N (ofZ a) (ofZ b) = (a <? b)%Z) ->
+  forall rows : list row, map rx rows = map (@ofZ N) ks ->
+  forall fuel dx dy dz xmax yr ix k,
+  knees ord fuel rows dx dy dz xmax yr = RDone ix k ->
+  valid_ix (length rows) ix = true /\ DescIx rows one ix.
+Proof. exact @z_output_S. Qed.
+Print Assumptions C10_z_output_S.
+
+(* z_output (Tier O): if the heights and 1.0 are totally pre-ordered by the comparison, heights are non-increasing
+   from left to right for ALL pairs and none exceeds 1.0 — the predicate the run evaluates *)
+Theorem C10_z_output_O : forall (N : Num) (ord : nat -> list row -> list row),
+  (forall j l, Permutation (ord j l) l) ->
+  forall ks, StronglySorted Z.lt ks ->
+  (forall k, In k ks -> @truncZ N (ofZ k) = Some k) ->
+  (forall a b, In a ks -> In b ks -> @ltb N (ofZ a) (ofZ b) = (a <? b)%Z) ->
+  forall rows : list row, map rx rows = map (@ofZ N) ks ->
+  forall P : T N -> Prop, TotalPreorderOn P ->
+  forall fuel dx dy dz xmax yr ix k,
+  P one -> Forall P (map ry rows) ->
+  knees ord fuel rows dx dy dz xmax yr = RDone ix k ->
+  heights_ok (map ry rows) ix = true.
+Proof. exact @z_output_O. Qed.
+Print Assumptions C10_z_output_O.
+
+(* ... on binary64 the order hypothesis is discharged (FloatOrder.v) for non-NaN heights *)
+Theorem C10_z_output_float : forall ord : nat -> list (@row FloatNum) -> list (@row FloatNum),
+  (forall j l, Permutation (ord j l) l) ->
+  forall ks, StronglySorted Z.lt ks ->
+  (forall k, In k ks -> @truncZ FloatNum (ofZ k) = Some k) ->
+  (forall a b, In a ks -> In b ks -> @ltb FloatNum (ofZ a) (ofZ b) = (a <? b)%Z) ->
+  forall rows, map rx rows = map (@ofZ FloatNum) ks ->
+  forallb (fun y => negb (f_isnan y)) (map ry rows) = true ->
+  forall fuel dx dy dz xmax yr ix k,
+  knees ord fuel rows dx dy dz xmax yr = RDone ix k ->
+  valid_ix (length rows) ix = true /\ heights_ok (map ry rows) ix = true.
+Proof. exact z_output_float. Qed.
+Print Assumptions C10_z_output_float.
+
+(* the set-valued executable model used by the correspondence run only contains results of `knees` under admissible
+   processing orders, so all of the above holds of each of its members *)
+Theorem C10_set_sound : forall (N : Num) fuel (rows : list (@row N)) (dx dy dz : T N) xmax yr rs r,
+  knees_set fuel rows dx dy dz xmax yr = Some rs -> In r rs ->
+  exists ord, (forall j l, Permutation (ord j l) l) /\ knees ord fuel rows dx dy dz xmax yr = r.
+Proof. exact @knees_set_sound. Qed.
+Print Assumptions C10_set_sound.
+
+(* non-vacuity: a 9-point curve (z-scores from uts), dx = 1/4, dy = 1/8, dz = 1/2: the preconditions of z_total hold with
+   K = 13, the model returns the knees [0; 2; 4; 8] (as zmethod.knees does) and the run's predicate holds *)
+Definition ex_ks : list Z := [0; 1; 2; 4; 5; 7; 8; 9; 11]%Z.
+Definition ex_ys : list float :=
+  [0x1.0000000000000p+0; 0x1.ccccccccccccdp-1; 0x1.0000000000000p-1; 0x1.ccccccccccccdp-2; 0x1.999999999999ap-3;
+   0x1.851eb851eb852p-3; 0x1.999999999999ap-4; 0x1.999999999999ap-4; 0x1.999999999999ap-5]%float.
+Definition ex_zs : list float :=
+  [(-0x1.823cfb6633268p+1); (-0x1.823cfb6633268p+1); 0x1.5618c16925fd8p+1; (-0x1.7733ece6efdc4p+0); 0x1.c6a85548078c6p+0;
+   (-0x1.000550554c540p-1); 0x1.046f5621cda4fp+0; (-0x1.6121cfe86947ap-4); (-0x1.6121cfe86947ap-4)]%float.
+Definition ex_rows : list (@row FloatNum) := combine (combine (map (@ofZ FloatNum) ex_ks) ex_ys) ex_zs.
+Example C10_example :
+  match @params FloatNum ex_rows 0.25%float 0.125%float None None with
+  | Some (Some p) =>
+      @sched_ok FloatNum 0.5%float (zp_minz p) 13 (length ex_rows + 2)
+      && @self_removed FloatNum (zp_w p) (zp_h p) ex_rows
+      && match @knees_set FloatNum (13 + length ex_rows + 2) ex_rows 0.25%float 0.125%float 0.5%float None None with
+         | Some [RDone ix k] => nat_list_eqb ix [0; 2; 4; 8] && (k <=? 13 + 9 + 2)
+         | _ => false
+         end
+      && @valid_ix 9 [0; 2; 4; 8] && @heights_ok FloatNum ex_ys [0; 2; 4; 8]
+      && @xsep_ok FloatNum (zp_w p) (map (@ofZ FloatNum) ex_ks) [0; 2; 4; 8]
+      && @ysep_ok FloatNum (zp_h p) ex_ys [0; 2; 4; 8]
+  | _ => false
+  end = true.
+Proof. vm_compute. reflexivity. Qed.
